@@ -158,6 +158,8 @@ def parse_arr(tok):
         return np.array([float(x) for x in pv(body)], dtype=float)
     if kind == "m":
         rows = pm(body)
+        if not rows:
+            return np.zeros((0, 0))
         return np.array([[float(x) for x in r] for r in rows], dtype=float).reshape(len(rows), -1)
     raise ValueError(tok)
 
@@ -645,7 +647,7 @@ def gen_tobs(rng, ts):
     if r < 0.86:
         k = rng.randint(1, 3)
         v = sorted(set(dy(rng, ts[0], ts[-1], 16) for _ in range(k)))
-        v = [x for x in v if x not in set(ts.tolist())] or [(ts[0] + ts[1]) / 2]
+        v = [x for x in v if x not in set(ts.tolist())] or [(ts[0] + ts[1]) / 2 if nt > 1 else ts[0] + 0.5]
         return np.array(v), "v:" + qv(v), "off-step"
     k = rng.randint(1, 3)
     v = sorted(set([dy(rng, ts[0], ts[-1], 16) for _ in range(k)] + [float(rng.choice(ts.tolist()))]))
@@ -689,6 +691,14 @@ def check_observe_time(ctx, cuqi, rng, ncases, bump):
         if c % 9 == 0:           # make sure the direct branch with an equal copy and the final time is frequent
             go, gclass = (gs.copy(), "equal-copy") if c % 2 else (None, "none")
         grid_sol_none = rng.random() < 0.05
+        if c < 3:                # always present: equal grids and time_obs = the final time repeated / no time at all
+            go, gclass = (gs.copy(), "equal-copy") if c == 1 else (None, "none")
+            T = float(ts[-1]); k = [2, 3, 0][c]
+            tobs, ttok, tclass = np.array([T] * k), "v:" + qv([T] * k), f"all-final-len{k}"
+            grid_sol_none = False
+        if tclass == "all-final-len0" and (grid_sol_none or gclass not in ("none", "equal-copy")):
+            # an array with a zero-length time axis has no faithful list representation on the interpolation branch
+            tobs, ttok, tclass = np.array([float(ts[-1])]), "v:" + qv([float(ts[-1])]), "explicit-final"
         ndim = 3 if rng.random() < 0.08 else 2
         U = dym(rng, N, nt, -4, 4, 4)
         if ndim == 3:
@@ -696,7 +706,7 @@ def check_observe_time(ctx, cuqi, rng, ncases, bump):
         else:
             U3 = None
         no = N if go is None else len(go)
-        omkind = rng.choice(OM_KINDS)
+        omkind = rng.choice(OM_KINDS) if ndim == 2 else rng.choice(["id", "sq", "sc"])
         cases.append(dict(N=N, nt=nt, gs=gs, ts=ts, go=go, gclass=gclass, tobs=tobs, ttok=ttok, tclass=tclass, ndim=ndim, U=U, U3=U3,
                           omkind=omkind, grid_sol_none=grid_sol_none, no=no))
     # first pass: implementation + scipy directly (W), then one driver batch
@@ -723,7 +733,7 @@ def check_observe_time(ctx, cuqi, rng, ncases, bump):
                 with quiet():
                     W = scipy.interpolate.RectBivariateSpline(gs, ts, cs["U"])(go_eff, res)
                 W = np.asarray(W, dtype=float).reshape(len(go_eff), len(res))
-                Wtok = qm(W) if W.size else "-"
+                Wtok = qm(W) if len(W) else "-"
                 if not np.isfinite(W).all():
                     W, Wtok = None, "err"
             except Exception as e:  # noqa
@@ -1048,7 +1058,7 @@ def check_gradient(ctx, cuqi, rng, ncases):
     from cuqi.geometry import Continuous1D
     cases, lines = [], []
     for c in range(ncases):
-        N = rng.choice([3, 4, 5])
+        N = rng.choice([4, 5, 6])
         npar = rng.randint(1, 4)
         steady = rng.random() < 0.5
         cap = ["g", "j", "gj", "n"][c % 4]
@@ -1075,13 +1085,20 @@ def check_gradient(ctx, cuqi, rng, ncases):
                     Jk = np.linalg.solve(np.eye(N) - dt * A, Jk + dt * F["B"])
             Jfull = Jk
         J = Jfull[idx, :]
-        wrong = rng.random() < 0.25 and cap == "gj"     # gradient_wrt_parameter takes precedence even if the two disagree
+        # when the PDE has both methods they may disagree: gradient_wrt_parameter takes precedence.
+        #   c%8==2: the Jacobian method is off (the gradient method is exact: the oracle applies)
+        #   c%8==6: the gradient method is off (tie only: the model output is whatever that method returns)
+        wrong = cap == "gj" and c % 8 == 6
+        jwrong = cap == "gj" and c % 8 == 2
         direction = dyv(rng, len(idx))
+        if not np.any(direction):
+            direction[0] = 1.0
         wrt = dyv(rng, npar)
         g = direction @ J
         gret = g + 1.0 if wrong else g
-        cases.append(dict(N=N, npar=npar, steady=steady, cap=cap, gs=gs, go=go, F=F, ts=ts, method=method, J=J, direction=direction, wrt=wrt, gret=gret, wrong=wrong))
-        lines.append(f"grad {cap} {len(idx)} {qv(direction)} {qm(J) if cap in ('j', 'gj') else '-'} {qv(gret) if cap in ('g', 'gj') else '-'}")
+        Jret = J + 1.0 if jwrong else J
+        cases.append(dict(N=N, npar=npar, steady=steady, cap=cap, gs=gs, go=go, F=F, ts=ts, method=method, J=Jret, direction=direction, wrt=wrt, gret=gret, wrong=wrong))
+        lines.append(f"grad {cap} {len(idx)} {qv(direction)} {qm(Jret) if cap in ('j', 'gj') else '-'} {qv(gret) if cap in ('g', 'gj') else '-'}")
     outs = ctx.lean.drive(lines)
     for cs, out in zip(cases, outs):
         F, cap = cs["F"], cs["cap"]
@@ -1159,7 +1176,7 @@ def check_testproblems(ctx, cuqi, rng, thorough):
         for dim in ([5, 9] if not thorough else [5, 9, 17, 12]):
             for obsmap in (None, "sub", "off"):
                 configs.append(("Poisson1D", dim, obsmap))
-        for dim in ([3, 7] if not thorough else [3, 7, 15, 10]):
+        for dim in ([4, 7] if not thorough else [4, 7, 15, 10]):
             for obsmap in (None, "sub", "off"):
                 configs.append(("Heat1D", dim, obsmap))
         lines, cases = [], []
